@@ -49,7 +49,13 @@ pub mod verif_replay {
             })
             .unwrap_or_default();
         let csi = if v["methods"].is_null() { CsiMethods::empty() } else { CsiMethods::new(&methods) };
-        let prefix_code = if v["prologue"].as_bool().unwrap_or(false) { generate_prefix_stmts(&csi) } else { Vec::new() };
+        let prefix_code = if let Some(pc) = v["prologue_code"].as_str() {
+            crate::rewriter::verif_parse_stmts(pc.to_string())
+        } else if v["prologue"].as_bool().unwrap_or(false) {
+            generate_prefix_stmts(&csi)
+        } else {
+            Vec::new()
+        };
         Config {
             chain_source_map: v["chain"].as_bool().unwrap_or(false),
             print_comments: v["comments"].as_bool().unwrap_or(false),
